@@ -1,6 +1,7 @@
 pub mod c02;
 pub mod c03;
 pub mod c04;
+pub mod c05;
 pub mod c06;
 pub mod c08;
 pub mod c09;
@@ -67,6 +68,7 @@ pub fn dispatch(id: &str) -> Option<(fn(Tier) -> i32, fn(&Value) -> String)> {
         "C02" => Some((c02::run, common::replay_lockstep)),
         "C03" => Some((c03::run, c03::replay)),
         "C04" => Some((c04::run, c04::replay)),
+        "C05" => Some((c05::run, c05::replay)),
         "C06" => Some((c06::run, c06::replay)),
         "C08" => Some((c08::run, c08::replay)),
         "C09" => Some((c09::run, c09::replay)),
